@@ -1,6 +1,6 @@
 (* the per-type decisions for the formats extracted from the current source (gen/Gen_ClaimHash.v) *)
 From Coq Require Import ZArith Bool String List.
-From FxV Require Import model.M_ClaimHash proofs.P_ClaimHash gen.Gen_ClaimHash.
+From FxV Require Import model.M_ClaimHash model.M_ClaimHashPreFix proofs.P_ClaimHash gen.Gen_ClaimHash.
 Import ListNotations.
 Open Scope Z_scope.
 
@@ -12,6 +12,34 @@ Lemma v_BridgeCallResult : verdict Gen_BridgeCallResult. Proof. decide_spec. Qed
 Lemma v_SendToExternal : verdict Gen_SendToExternal. Proof. decide_spec. Qed.
 Lemma v_BridgeToken : verdict Gen_BridgeToken. Proof. decide_spec. Qed.
 Lemma v_OracleSetUpdated : verdict Gen_OracleSetUpdated. Proof. decide_spec. Qed.
+
+(* the property, positively: on the current source every ClaimHash is injective on the execution-relevant fields *)
+Ltac inj_spec := apply check_fmt_sound; vm_compute; reflexivity.
+
+Lemma inj_SendToFx : injective Gen_SendToFx. Proof. inj_spec. Qed.
+Lemma inj_BridgeCall : injective Gen_BridgeCall. Proof. inj_spec. Qed.
+Lemma inj_BridgeCallResult : injective Gen_BridgeCallResult. Proof. inj_spec. Qed.
+Lemma inj_SendToExternal : injective Gen_SendToExternal. Proof. inj_spec. Qed.
+Lemma inj_BridgeToken : injective Gen_BridgeToken. Proof. inj_spec. Qed.
+Lemma inj_OracleSetUpdated : injective Gen_OracleSetUpdated. Proof. inj_spec. Qed.
+
+(* the pre-fix format constants (history): each admitted a colliding pair of valid claims *)
+Lemma cex_refuted : forall sp c1 c2, cex sp = Some (c1, c2) -> refuted sp.
+Proof. intros sp c1 c2 H. exists c1, c2. apply collide_sound. apply cex_sound. exact H. Qed.
+
+Ltac refute_spec sp :=
+  let E := fresh in destruct (cex sp) as [[? ?]|] eqn:E;
+  [exact (cex_refuted _ _ _ E) | vm_compute in E; discriminate E].
+
+Lemma prefix_BridgeCall_refuted : refuted PreFix_BridgeCall. Proof. refute_spec PreFix_BridgeCall. Qed.
+Lemma prefix_BridgeCallResult_refuted : refuted PreFix_BridgeCallResult. Proof. refute_spec PreFix_BridgeCallResult. Qed.
+Lemma prefix_BridgeToken_refuted : refuted PreFix_BridgeToken. Proof. refute_spec PreFix_BridgeToken. Qed.
+
+Lemma prefix_missing :
+  missing_fields PreFix_BridgeCall = ["Memo"; "TxOrigin"]%string /\
+  missing_fields PreFix_BridgeCallResult = ["TxOrigin"]%string /\
+  missing_fields PreFix_BridgeToken = [] /\ chk PreFix_BridgeToken (s_fmt PreFix_BridgeToken) = false.
+Proof. vm_compute. auto. Qed.
 
 (* the six generated specs are exactly these *)
 Lemma gen_all_six : Gen_all = [Gen_SendToFx; Gen_BridgeCall; Gen_BridgeCallResult; Gen_SendToExternal;
